@@ -48,6 +48,7 @@ pub(crate) struct ConnectionState {
     poller: Option<Waker>,
     on_connected: Option<Waker>,
     on_handshake_data: Option<Waker>,
+    on_closed: VecDeque<Waker>,
     datagram_received: VecDeque<Waker>,
     datagrams_unblocked: VecDeque<Waker>,
     stream_opened: [VecDeque<Waker>; 2],
@@ -148,6 +149,7 @@ impl ConnectionInner {
                 poller: None,
                 on_connected: None,
                 on_handshake_data: None,
+                on_closed: VecDeque::new(),
                 datagram_received: VecDeque::new(),
                 datagrams_unblocked: VecDeque::new(),
                 stream_opened: [VecDeque::new(), VecDeque::new()],
@@ -291,9 +293,11 @@ impl ConnectionInner {
         }
 
         // Break the reference cycle.
-        if let Some(worker) = self.state().worker.take() {
+        let mut state = self.state();
+        if let Some(worker) = state.worker.take() {
             worker.detach();
         }
+        state.on_closed.drain(..).for_each(Waker::wake);
     }
 }
 
@@ -654,10 +658,17 @@ impl Connection {
 
     /// Wait for the connection to be closed for any reason.
     pub async fn closed(&self) -> ConnectionError {
-        let worker = self.0.state().worker.take();
-        if let Some(worker) = worker {
-            let _ = worker.await;
-        }
+        // Wait for the worker to finish without taking its handle: dropping
+        // the handle would cancel the worker and strand the connection.
+        future::poll_fn(|cx| {
+            let mut state = self.0.state();
+            if state.worker.is_none() {
+                return Poll::Ready(());
+            }
+            state.on_closed.push_back(cx.waker().clone());
+            Poll::Pending
+        })
+        .await;
 
         self.0.try_state().unwrap_err()
     }
